@@ -799,6 +799,7 @@ func main() {
 	opsSeen := ev.NewCounter()
 	maxDepth := depth
 	width := widthLayer(r, &st, states, opsSeen)
+	shared := sharedColumnFamily(r, &st, opsSeen)
 	ev.Parallel(len(jobs), runtime.NumCPU(), func(i int) {
 		j := jobs[i]
 		d := depth
@@ -829,6 +830,7 @@ func main() {
 		"start_views":                   len(jobs),
 		"ops_exercised":                 opsSeen.Keys(),
 		"width_layer":                   width,
+		"shared_column_family":          shared,
 		"rule":                          "every operation sequence up to max_depth from every (off,len) view of a parent frame, per column-type combination; state = canonical dump of model storage + view coordinates; each trace is executed on the real frame.Frame (fresh object per trace)",
 	})
 }
